@@ -208,6 +208,9 @@ def parent(args):
         need_n = need[0 if args.tier == "quick" else 1] if isinstance(need, (tuple, list)) else need
         if total.monitors.get(name, 0) < need_n:
             inconclusive.append(f"monitor '{name}' evaluated {total.monitors.get(name, 0)} < {need_n} times")
+    for name in getattr(mod, "FORBID", []):
+        if total.notes.get(name, 0):
+            inconclusive.append(f"oracle self-check '{name}' failed {total.notes[name]} times (oracle defect, not a verdict)")
     if len(total.nontrivial) < 2:
         inconclusive.append("fewer than 2 distinct non-trivial cases")
 
